@@ -8,3 +8,5 @@ Definition gen_eco_pool : string := "sif1ct2s3t8u2kffjpaekhtngzv6yc4vm97xajqyl3"
 Definition gen_dispensation_begin_blockers : Z := 1%Z.
 Definition gen_consensus_needed_times_1000 : Z := 700%Z.
 Definition gen_oracle_keeper_uses_default_threshold : Z := 1%Z.
+Definition gen_trailing_blocks : Z := 50%Z.
+Definition gen_relayer_loop_actions : list string := ["Sleep"; "Get"; "FilterLogs"; "handleEthereumEvent"; "Sleep"; "Put"].
